@@ -58,8 +58,9 @@ def _seeded_inits(E, a, old):
 SingleRunSeed.canaries = {"the_initial_centres_ignore_the_random_state": lambda E, a, res, old: z3.BoolVal(True not in _seeded_inits(E, a, old))}
 
 
-def refit(base, fitted, caches=(), name=None):
-    """the C03 variant of a C02 frame contract: same setup, primed with stale fitted attributes"""
+def refit(base, fitted, caches=(), name=None, scan=True):
+    """the C03 variant of a C02 frame contract: same setup, primed with stale fitted attributes (and stale caches: every attribute a method
+    other than __init__ / fit assigns - scan=False where fit delegates to an opaque in-repo step that sets such attributes itself)"""
     class R(base):
         frame_only = False
 
@@ -68,20 +69,21 @@ def refit(base, fitted, caches=(), name=None):
             self.prime(E, a["self"])
             return a
     R.fitted = list(fitted)
+    R.scan_caches = scan
     R.private_caches = list(caches)
     R.__name__ = name or base.__name__
     return contract(base.key, "C03")(R)
 
 
 refit(_c02.ConstraintKMeansFit, ["labels_", "cluster_centers_", "inertia_", "n_iter_", "weights_", "cluster_centers_iter_"])
-refit(_c02.KMeansL1L2Fit, [])          # L2 delegates to KMeans.fit; the L1 branch is the summary of _fit_l1, proved just below
+refit(_c02.KMeansL1L2Fit, [], scan=False)          # L2 delegates to KMeans.fit; the L1 branch is the summary of _fit_l1, proved just below
 refit(_c02.FitL1Frame, ["cluster_centers_", "labels_", "inertia_", "n_iter_"])   # the real loop over the runs: every fitted attribute is overwritten
 refit(_c02.IntervalFit, ["estimators_"])
 refit(_c02.QuantileFit, ["coef_", "intercept_", "n_iter_"])
 refit(_c02.CakFit, ["labels_", "clus_", "estimator_"])
 refit(_c02.TransferFit, ["estimator_"])
 refit(_c02.TtrFit, ["transformer_", "regressor_"])
-refit(_c02.PiecewiseTreeFit, ["tree_"])
+refit(_c02.PiecewiseTreeFit, ["tree_"], scan=False)       # leaves_index_ / leaves_mapping_ are set by _fit_reglin, an opaque step here (C09)
 refit(_c02.DtlrFit, ["classes_", "tree_", "n_nodes_"])
 refit(_c02.ExtendedFit, ["n_input_features_", "n_output_features_"])
 refit(_c02.CategoriesFit, ["_fit_columns", "_categories", "_schema"])
@@ -99,6 +101,7 @@ class PermFit(FrameFit):
     params = ["random_state", "closest"]
     fitted = ["permutation_"]
     private_caches = ["knn_", "knn_perm_"]
+    scan_caches = True          # whatever else _find_closest & co. keep on the instance (read from the class source)
     data = ["y"]
     max_paths = 20000
 
